@@ -147,6 +147,21 @@ CHECKS = {
             'expansion that is produced must be accepted at check_level 0, prove the same conclusion and need no extra hypotheses.',
             'An expansion that raises counts as "no expansion produced" (statement is conditional on the expansion being produced).',
             'DESIGN.md 2 C04'),
+    'C12': ('scripted histories executed in fresh subprocesses ending in load_theory; canonical dumps of theory.thy.data compared '
+            'with a fresh process doing only the final load and with an expectation computed from the JSON files alone',
+            'Exploration: ~100 (quick) / ~1700 (thorough) child processes: earlier loads, imports of modules with import-time loads, '
+            'failing loads, interrupted loads (exception injected at the N-th parse_item), loads inside fresh_theory, other users, '
+            'file rewrites/pokes/additions on temporary library trees, cycles and corrupt files; every theory is a final target in '
+            'thorough.',
+            'Trusts vf/oracle_c12_child.py (dump through shadows) and plain JSON reading for the expectation.',
+            'DESIGN.md 2 C12'),
+    'C14': ('each entry of the real search_method paired with the effect of apply_method on a copy of the state (front-end protocol '
+            'for parameters); sub-goals, facts and solving claims compared on shadow sequents',
+            'Exploration: sampled prefixes of recorded library proofs in 37 theories and generated states built from hint theorems; '
+            'a suggestion must succeed or ask for named parameters, leave only advertised sub-goals, leave none when advertised as '
+            'solving, and produce its advertised facts.',
+            'Trusts the shadow comparison and the re-implemented trivial pattern; Z3 stubbed as in the repository replay.',
+            'DESIGN.md 2 C14'),
 }
 
 NOT_YET = {}
